@@ -48,6 +48,7 @@ class _WFile(io.StringIO):
         fs = self._fs
         if self._path not in fs.torn:
             fs.files[self._path] = self.getvalue()
+            fs.touch(self._path)
         plan = fs.fault
         super().close()
         if plan is not None and plan["kind"] == "eio-close" and plan.get("armed_path") == self._path:
@@ -67,6 +68,7 @@ class SimFS:
         self.files = {}          # normalised absolute path -> str content
         self.dirs = {"/"}
         self.opened_w = []       # every path opened for writing (in order)
+        self.removed = []
         self.made_dirs = []
         self.fault = None        # one armed fault plan or None
         self.fired = []
@@ -76,6 +78,9 @@ class SimFS:
         self.download_plan = None    # None | "fail" | "short"
         self.archive = {}            # url path -> content (simulated OPEN-ADAS server)
         self.downloads = []
+        self.clock = 0           # logical time: one tick per completed write / rename / remove
+        self.meta = {}           # path -> (mtime, inode)
+        self.next_ino = 1000
         self.os = _FakeOS(self)
         self.urllib = _FakeUrllib(self)
 
@@ -86,9 +91,18 @@ class SimFS:
             p = "/simcwd/" + p
         return posixpath.normpath(p)
 
+    def touch(self, p):
+        self.clock += 1
+        ino = self.meta.get(p, (0, None))[1]
+        if ino is None:
+            self.next_ino += 1
+            ino = self.next_ino
+        self.meta[p] = (self.clock, ino)
+
     def add_file(self, path, content):
         p = self.norm(path)
         self.files[p] = content
+        self.touch(p)
         d = posixpath.dirname(p)
         while d not in self.dirs:
             self.dirs.add(d)
@@ -117,6 +131,7 @@ class SimFS:
             self.opened_w.append(p)
             self.torn.discard(p)
             self.files[p] = ""           # O_TRUNC
+            self.touch(p)
             return _WFile(self, p)
         raise ValueError("SimFS: unsupported mode %r" % mode)
 
@@ -143,6 +158,12 @@ class _FakePath:
         q = self._fs.norm(p)
         return q in self._fs.files or q in self._fs.dirs
 
+    def getsize(self, p):
+        return self._fs.os.stat(p).st_size
+
+    def getmtime(self, p):
+        return self._fs.os.stat(p).st_mtime
+
 
 class _FakeOS:
 
@@ -151,9 +172,58 @@ class _FakeOS:
         self.path = _FakePath(fs)
 
     def __getattr__(self, name):
-        if name in ("remove", "unlink", "rename", "replace", "rmdir", "listdir", "stat", "mkdir", "open", "scandir", "walk"):
+        if name in ("rmdir", "mkdir", "open", "scandir", "walk", "utime", "chmod", "fsync"):
             raise AttributeError("SimFS: os.%s is not simulated (the repository code did not use it when the seam was built)" % name)
         return getattr(_real_os, name)
+
+    def stat(self, p):
+        fs = self._fs
+        q = fs.norm(p)
+        if q in fs.files:
+            mt, ino = fs.meta.get(q, (0, 1))
+            n = len(fs.files[q].encode())
+            return _real_os.stat_result((0o100644, ino, 1, 1, 0, 0, n, float(mt), float(mt), float(mt)))
+        if q in fs.dirs:
+            return _real_os.stat_result((0o040755, 2, 1, 2, 0, 0, 0, 0.0, 0.0, 0.0))
+        raise FileNotFoundError(errno.ENOENT, "No such file or directory", p)
+
+    def remove(self, p):
+        fs = self._fs
+        q = fs.norm(p)
+        if q not in fs.files:
+            raise FileNotFoundError(errno.ENOENT, "No such file or directory", p)
+        del fs.files[q]
+        fs.meta.pop(q, None)
+        fs.clock += 1
+        fs.removed.append(q)
+
+    unlink = remove
+
+    def replace(self, src, dst):
+        fs = self._fs
+        a, b = fs.norm(src), fs.norm(dst)
+        if a not in fs.files:
+            raise FileNotFoundError(errno.ENOENT, "No such file or directory", src)
+        if posixpath.dirname(b) not in fs.dirs:
+            raise FileNotFoundError(errno.ENOENT, "No such file or directory", dst)
+        fs.files[b] = fs.files.pop(a)
+        fs.meta[b] = fs.meta.pop(a, (fs.clock, 1))
+        fs.touch(b)
+        fs.opened_w.append(b)
+        fs.torn.discard(b)
+
+    rename = replace
+
+    def listdir(self, d="."):
+        fs = self._fs
+        q = fs.norm(d)
+        if q not in fs.dirs:
+            raise FileNotFoundError(errno.ENOENT, "No such file or directory", d)
+        out = set()
+        for p in list(fs.files) + list(fs.dirs):
+            if p != q and posixpath.dirname(p) == q:
+                out.add(posixpath.basename(p))
+        return sorted(out)
 
     def makedirs(self, d, mode=0o777, exist_ok=False):
         fs = self._fs
@@ -200,6 +270,7 @@ class _FakeUrllib:
         p = fs.norm(target)
         fs.opened_w.append(p)
         fs.files[p] = content
+        fs.touch(p)
         return target, None
 
 
